@@ -64,6 +64,14 @@ def mixed_name_cases(draw, tier):
             "at_most_one": draw(st.booleans()), "rng": draw(st.integers(0, 999)), "via_mutation": None}
 
 
+def accepted_family_cases(tier):
+    """the algorithms that only accept some scheme families on incomplete data (Borda, PickAPerm, BioConsert started
+    from them, ParCons delegating to them), under exactly those families: in the generic cases they mostly refuse"""
+    from checks.c04 import restricted_cases
+    return restricted_cases(tier)
+
+
 def subchecks():
     return [HypSub("wellformed", alg_cases, check, quick=20000, thorough=250000),
-            HypSub("mixed_names", mixed_name_cases, check, quick=4000, thorough=50000)]
+            HypSub("mixed_names", mixed_name_cases, check, quick=4000, thorough=50000),
+            HypSub("accepted_families", accepted_family_cases, check, quick=4000, thorough=50000)]
